@@ -139,6 +139,10 @@ def gen_op(rng, sw, last_sample):
                   use_previous=rng.random() < 0.6)
         if op["method"] == "exact" and rng.random() < 0.4:
             op["bounds"] = rng.choice([[1.1, 3.0], [2.0, 6.0], [1.5, 2.0], [3.0, 4.5]])
+        if op["method"] == "exact" and rng.random() < 0.25:
+            # keyword arguments are "passed on to scipy.optimize.minimize_scalar": an iteration cap that stops the optimiser early makes it
+            # report failure (the library raises "fitting failed" - allowed); whatever IS returned must still be a maximiser within the bounds
+            op["maxiter"] = rng.choice([1, 2, 3, 5, 8, 13, 500])
     return op
 
 
@@ -608,6 +612,9 @@ def execute(trace, ctx=None):
             kw = {}
             if op.get("bounds"):
                 kw["bounds"] = list(op["bounds"])
+            if op.get("maxiter"):
+                kw["options"] = {"maxiter": int(op["maxiter"])}
+                stats["mle_exact_with_iteration_cap"] += 1
             cc = op.get("c_container", "ndarray")
             if cc == "list":
                 carg = [float(x) for x in c]
